@@ -12,7 +12,9 @@ RULE = ('edit histories (enter / overwrite / bare-number delete / DELETE a-b, a-
         '0..65529, statement text from a generator of tokens with embedded 00 bytes (numbers, jump targets), string '
         'literals and REM/DATA with high bytes, lengths 0..250; a case is one operation inside its history '
         '(every observable is compared after every operation); non-trivial = an operation that changes the program '
-        'or is refused; profiles: mixed, descending (front insertion), long lines in a small memory (Out of memory)')
+        'or is refused; profiles: mixed, descending (front insertion), long lines in a small memory (Out of memory), '
+        'renum (RENUM [new][,old][,step] with new at/around the highest kept line, old on/between lines, steps 0/1/10/large '
+        'reaching past 65529; after an accepted RENUM the reference is re-read and the history continues)')
 EXPLANATION = ('theorems (PcbV.Props.C13): representation invariant Inv (bytes = serialisation of a strictly sorted record '
                'list, dict = its offset table, memory bound) holds initially and is preserved by store/delete/new for '
                'well-formed bodies; Inv gives dict = rescan(bytes), increasing offsets, correct next-address fields, '
@@ -116,7 +118,8 @@ def gen_text(rng, tag):
 
 
 def gen_history(rng, nops, profile):
-    """List of ops: ['s', n, text, tagged, tag] | ['b', n] | ['d', a|None, b|None] | ['n']"""
+    """List of ops: ['s', n, text, tagged, tag] | ['b', n] | ['d', a|None, b|None] | ['n'] |
+    ['r', new|None, old|None, step|None] (RENUM)"""
     pool = sorted(set(rng.sample(BOUNDARY_LINES, rng.choice([2, 4, 8])) +
                       [rng.randrange(65530) for _ in range(rng.choice([2, 6, 20, 40]))]))
     ops = []
@@ -139,6 +142,11 @@ def gen_history(rng, nops, profile):
                 pool.append(n)
                 continue
             k = rng.random()
+        if profile == 'renum':
+            if k < 0.15:
+                ops.append(['r', 'auto', 'auto', 'auto'])
+                continue
+            k = rng.random()
         if profile == 'smallmem':
             if k < 0.75:
                 n = pick(0.3) if rng.random() < 0.5 else max(0, 40000 - 11 * i)
@@ -154,7 +162,7 @@ def gen_history(rng, nops, profile):
             ops.append(['s', pick(), text, tagged, tag])
         elif k < 0.70:
             ops.append(['b', pick(0.15)])
-        elif k < 0.97:
+        elif k < 0.93:
             form = rng.random()
             a, b = pick(0.3), pick(0.3)
             if form < 0.55:
@@ -167,8 +175,12 @@ def gen_history(rng, nops, profile):
                 ops.append(['d', a, None])
             else:
                 ops.append(['d', None, b])
-        else:
+        elif k < 0.985 or profile == 'smallmem':
             ops.append(['n'])
+        else:
+            # RENUM; the arguments are chosen when the operation is reached (they depend on the lines present
+            # at that point) and written back into the op, so that a replay has the concrete numbers
+            ops.append(['r', 'auto', 'auto', 'auto'])
     return ops
 
 
@@ -357,6 +369,9 @@ class History(object):
                 exp, expref = 'e5', ref
             self.model_ops.append('d:%s:%s' % ('-' if a is None else a, '-' if b is None else b))
             ctx.count('delete:%s' % ('none' if not sel else 'all' if len(sel) == len(ref) else 'some'))
+        elif kind == 'r':
+            self.renum(i, op)
+            return
         else:
             cmd = b'NEW'
             exp, expref = 'ok', {}
@@ -377,6 +392,92 @@ class History(object):
             return
         self.ref = ref = expref
         self.observe(i, status)
+
+    def renum(self, i, op):
+        """RENUM [new][,[old][,step]]: checked structurally, then the reference is re-read (a RENUM rewrites
+        jump operands, which the line -> tokens reference cannot predict)."""
+        import re
+        ctx, ref = self.ctx, self.ref
+        nums = sorted(ref)
+        if any(not ref[n][4] for n in nums):
+            ctx.count('renum:skipped-nonwf-line-present')   # known finding C13-F1: the token scan derails
+            return
+        if op[1] == 'auto':
+            op[1], op[2], op[3] = renum_args(ctx.rng, nums)
+        new, old, step = op[1], op[2], op[3]
+        cmd = renum_cmd(ctx.rng, new, old, step)
+        nw, od, st = (10 if new is None else new), (0 if old is None else old), (10 if step is None else step)
+        kept = [n for n in nums if n < od]
+        moved = [n for n in nums if n >= od]
+        # the rule of the statement: a kept line at or above `new`, or a new number above 65529, is refused
+        if st < 1:
+            exp, why = 'e5', 'step0'
+        elif kept and kept[-1] >= nw:
+            exp, why = 'e5', 'overlap'
+        elif moved and nw + (len(moved) - 1) * st > 65529:
+            exp, why = 'e5', 'beyond65529'
+        else:
+            exp, why = 'ok', ('none-moved' if not moved else 'all-moved' if not kept else 'some-moved')
+        ctx.count('renum:%s' % why)
+        if kept and exp == 'ok' or why == 'overlap':
+            ctx.count('renum:new-vs-highest-kept:%s' % ('equal' if nw == kept[-1] else 'one-above' if nw == kept[-1] + 1
+                                                         else 'one-below' if nw == kept[-1] - 1 else 'other'))
+        try:
+            out = self.s.execute(cmd)
+        except Exception as e:  # noqa
+            self.fail('exception:renum:%s' % type(e).__name__, i, '%r raised %r out of Session.execute' % (cmd, e))
+            return
+        if out == b'Illegal function call\xff\r\n':
+            status = 'e5'
+        elif re.match(br'\A(Undefined line \d+ in \d+\r\n)*\Z', out):
+            status = 'ok'
+        else:
+            status = 'other'
+        ctx.count('status:' + status)
+        ctx.case((self.profile, i, cmd))
+        if status != exp:
+            self.fail('renum:status:%s-for-%s' % (status, exp), i,
+                      '%r with lines %r answered %r, expected %s (%s)' % (cmd, nums[:40], out[:100], exp, why))
+            return
+        if status == 'e5':
+            # refused: nothing may have changed (observe compares everything with the old reference)
+            self.model_ops.append('x:5')
+            self.observe(i, 'e5')
+            return
+        prog = self.prog
+        code = prog.bytecode.getvalue()[:prog.size()]
+        image = parse_image(code, self.cs)
+        if isinstance(image, str):
+            self.fail('renum:image', i, '%r left a broken program image: %s' % (cmd, image))
+            return
+        got = [(line, mask_jumps(body)) for _, line, body in image]
+        want = [(n, mask_jumps(ref[n][0])) for n in kept] + \
+               [(nw + j * st, mask_jumps(ref[n][0])) for j, n in enumerate(moved)]
+        if [g[0] for g in got] != [w[0] for w in want]:
+            self.fail('renum:numbers', i, '%r on lines %r gave lines %r, expected %r'
+                      % (cmd, nums[:40], [g[0] for g in got][:40], [w[0] for w in want][:40]))
+            return
+        if got != want:
+            bad = [w[0] for g, w in zip(got, want) if g != w]
+            self.fail('renum:bodies', i, '%r changed more than jump operands in line(s) %r' % (cmd, bad[:10]))
+            return
+        listed = prog.list_lines(None, None)
+        if len(listed) != len(image) or any(not l.startswith(b'%d ' % line) for l, (_, line, _) in zip(listed, image)):
+            self.fail('renum:list', i, 'after %r LIST shows %r for the lines %r'
+                      % (cmd, [l[:12] for l in listed][:20], [g[0] for g in got][:20]))
+            return
+        newref = {}
+        for (_, line, body), text, n in zip(image, listed, kept + moved):
+            # (the lister treats line 0 specially: no separating blank; not compared)
+            if body == ref[n][0] and n != 0 and line != 0 and text[len(b'%d' % line):] != ref[n][1][len(b'%d' % n):]:
+                self.fail('renum:listing', i, 'line %d (was %d) has the same tokens but lists as %r, before %r'
+                          % (line, n, text[:80], ref[n][1][:80]))
+                return
+            newref[line] = (bytes(body), text, ref[n][2], ref[n][3], ctx_wf(ctx, body))
+        # re-synchronise: the reference and the model continue from the state read back
+        self.ref = newref
+        self.model_ops.append('l:%s' % (','.join('%d.%s' % (line, hexb(body)) for _, line, body in image) or '-'))
+        self.observe(i, 'ok', sample=True)
 
     def observe(self, i, status, sample=None):
         ctx, ref, prog = self.ctx, self.ref, self.prog
@@ -540,6 +641,94 @@ def wf_body(body):
     return skip == 0
 
 
+def mask_jumps(body):
+    """The body with the operand of every line-number token (0E lo hi, outside string literals and REM)
+    replaced by FF FF: the part of a line RENUM may not change."""
+    from pcbasic.basic.base import tokens as tk
+    plus = {ord(k): v for k, v in tk.PLUS_BYTES.items() if len(k) == 1}
+    rem_tok, uint = ord(tk.REM), ord(tk.T_UINT)
+    out = bytearray(body)
+    lit = rem = False
+    i, n = 0, len(out)
+    while i < n:
+        c = out[i]
+        if c == 34:
+            lit = not lit
+        elif c == rem_tok and not lit:
+            rem = True
+        if lit or rem:
+            i += 1
+            continue
+        k = plus.get(c, 0)
+        if c == uint:
+            for j in range(i + 1, min(n, i + 3)):
+                out[j] = 0xff
+        i += 1 + k
+    return bytes(out)
+
+
+def parse_image(code, cs):
+    """The records of a program image, found by following the next-address fields:
+    [(offset, line, body)], or a string saying what is wrong with the image."""
+    p, out = 0, []
+    for _ in range(70000):
+        if p + 3 > len(code) or code[p:p + 1] != b'\0':
+            return 'no record start at offset %d' % p
+        link, = struct.unpack('<H', code[p + 1:p + 3])
+        if link == 0:
+            if p + 3 != len(code):
+                return 'terminator at %d but the image has %d bytes' % (p, len(code))
+            return out
+        nxt = link - cs - 1
+        if nxt < p + 5 or nxt + 3 > len(code):
+            return 'next-address field at %d points to %d' % (p, nxt)
+        line, = struct.unpack('<H', code[p + 3:p + 5])
+        out.append((p, line, code[p + 5:nxt]))
+        p = nxt
+    return 'chain does not end'
+
+
+RENUM_RX = None
+
+
+def renum_args(rng, nums):
+    """Boundary-dense RENUM arguments for a program with the line numbers `nums`."""
+    cand_old = [None, None, 0, 65529]
+    if nums:
+        x = rng.choice(nums)
+        cand_old += [x, x, x + 1, max(0, x - 1), nums[0], nums[-1], nums[-1] + 1, nums[len(nums) // 2]]
+    old = rng.choice(cand_old)
+    if old is not None:
+        old = min(65529, old)
+    o = 0 if old is None else old
+    kept = [n for n in nums if n < o]
+    k = len(nums) - len(kept)
+    step = rng.choice([None, None, 1, 1, 2, 10, 100, 1000, 7000, 65529, 0])
+    st = 10 if step is None else step
+    cand_new = [None, None, 0, 1, 10, 65529, 65520, rng.randrange(65530)]
+    if kept:
+        hk = kept[-1]
+        cand_new += [hk, hk, max(0, hk - 1), hk + 1, hk + 1, hk + 2, kept[0], hk + rng.randrange(1, 50)]
+    if k:
+        fit = 65529 - (k - 1) * st     # the last renumbered line gets exactly 65529
+        cand_new += [v for v in (fit, fit, fit + 1, fit - 1) if 0 <= v <= 65529]
+    new = rng.choice(cand_new)
+    if new is not None:
+        new = min(65529, new)
+    return new, old, step
+
+
+def renum_cmd(rng, new, old, step):
+    f = lambda v: b'' if v is None else b'%d' % v    # noqa
+    if step is not None:
+        return b'RENUM %s,%s,%s' % (f(new), f(old), f(step))
+    if old is not None:
+        return b'RENUM %s,%s' % (f(new), f(old))
+    if new is not None:
+        return b'RENUM %d' % new
+    return b'RENUM'
+
+
 def ctx_wf(ctx, body):
     """classify a body and remember it so that the model's wfBody can be compared in one batch"""
     body = bytes(body)
@@ -597,6 +786,16 @@ def fixed_histories():
     hs.append(('fixed', None, [['s', 10, b'PRINT "A":A=256', False, 1], ['s', 20, b'PRINT "\x8f":A=256:GOTO 10', False, 2],
                                ['s', 5, b'A$="\x8f\x8f":B=0!:C=1D0', False, 3], ['s', 20, b'PRINT "\x8f";256', False, 4],
                                ['d', 10, 10], ['s', 30, b'?"\x8f', False, 5], ['s', 25, b'A$="x\x8fy":GOSUB 512', False, 6]]))
+    # RENUM corners: new equal to / below / above the highest kept line, numbers beyond 65529, step 0, no-ops
+    j = lambda k, tgt: b'PRINT "T%d":END:GOTO %d:IF X THEN %d ELSE 65529' % (k, tgt, tgt)   # noqa
+    hs.append(('fixed-renum', None, [['s', 10, j(1, 30), True, 1], ['s', 20, j(2, 10), True, 2], ['s', 30, j(3, 40), True, 3],
+                                     ['s', 40, j(4, 20) + b':REM GOTO 20 "\x0e\x14\x15', True, 4],
+                                     ['r', 10, 20, None], ['r', 9, 20, None], ['r', 11, 20, None], ['r', None, None, None],
+                                     ['r', 65500, None, None], ['r', 65499, None, None], ['r', 65526, None, 1],
+                                     ['r', None, None, 0], ['r', 65527, None, 1], ['r', 100, 65529, 5], ['r', 0, None, 16382],
+                                     ['b', 16382], ['r', 0, 1, 1], ['r', 1, 1, 1], ['s', 5, j(5, 2), True, 5],
+                                     ['r', 5, 6, 7], ['r', 6, 6, 7], ['r', None, 7, None], ['d', 0, 5], ['r', 0, None, 65529],
+                                     ['r', 1000, None, 1000], ['n'], ['r', None, None, None], ['r', 5, 5, 5]]))
     # raw FF / REM bytes in unquoted DATA text: outside the hypothesis wfBody (known finding C13-F1)
     hs.append(('fixed-nonwf', None, [['s', 10, b'DATA \xff', False, 1], ['s', 20, t(2), True, 2], ['s', 5, t(3), True, 3],
                                      ['s', 15, b'DATA \x8f:A=256', False, 4], ['b', 10], ['d', 15, 15]]))
@@ -611,10 +810,10 @@ def run(ctx):
         for profile, mm, ops in fixed_histories():
             hs.append(run_history(ctx, scratch, ops, mm, profile, sample_every=3))
         if ctx.quick:
-            plan = [('mixed', None, 60, 32), ('mixed', None, 300, 2), ('desc', None, 120, 2),
+            plan = [('mixed', None, 60, 28), ('renum', None, 60, 8), ('mixed', None, 300, 2), ('desc', None, 120, 2),
                     ('smallmem', 7000, 120, 4), ('smallmem', 5600, 60, 3)]
         else:
-            plan = [('mixed', None, 60, 400), ('mixed', None, 300, 40), ('mixed', None, 2000, 4), ('desc', None, 300, 12),
+            plan = [('mixed', None, 60, 400), ('renum', None, 80, 150), ('mixed', None, 300, 40), ('mixed', None, 2000, 4), ('desc', None, 300, 12),
                     ('desc', None, 400, 3), ('smallmem', 7000, 300, 30), ('smallmem', 5600, 100, 30),
                     ('smallmem', 12000, 500, 6)]
         for profile, mm, nops, count in plan:
